@@ -408,6 +408,9 @@ DEEP = [
     ("under_depth3", "(_, (_, (o, _))) <== (a, (b, (c, a)));"),
     ("loop_depth3", "for (var i = 0; i < 2; i++) { (arr[i], (p, (arr2[i][0], _))) <== (a, (b, B12()(c))); }"),
     ("named_in_depth3", "(o, (p, (q, v))) <== (a, (b, B22()(x2 <-- b, x1 = a)));"),
+    ("log_depth3", "log((a, (b, (c, a))));"),
+    ("log_depth4", "log(\"s\", (a, ((b, c), (a, (b, (c, 1))))), 1);"),
+    ("log_depth3_anon", "log((a, (b, (c, A1()(a)))));"),
     ("read_idx_tuple", "o <== arr[(0, 1)];"),
     ("read_idx_anon", "o <== arr[A1()(a)];"),
     ("read_idx_tuple_deep", "o <== 1 + arr2[0][(a, b)];"),
